@@ -2,6 +2,7 @@ package main
 
 import (
 	"go/token"
+	"go/types"
 	"strings"
 
 	"golang.org/x/tools/go/ssa"
@@ -266,4 +267,258 @@ func (p CPath) forward(occs []OccPos, at int, ctx *FCtx, v ssa.Value) ssa.Value 
 		seg = occs[si].Seg
 	}
 	return v
+}
+
+// PVal is the value an expression has at one point of a path, as far as the
+// path determines it: a constant, or an opaque value (the resolved SSA value
+// and the occurrence index it was read at).
+type PVal struct {
+	IsK bool
+	K   int64
+	V   ssa.Value
+	At  int
+}
+
+func (a PVal) same(b PVal) bool {
+	if a.IsK || b.IsK {
+		return a.IsK && b.IsK && a.K == b.K
+	}
+	return a.V == b.V && a.At == b.At
+}
+
+// lastOcc: index of the latest occurrence of in at or before at.
+func lastOcc(occs []OccPos, at int, in ssa.Instruction) int {
+	if at >= len(occs) {
+		at = len(occs) - 1
+	}
+	for j := at; j >= 0; j-- {
+		if occs[j].In == in {
+			return j
+		}
+	}
+	return -1
+}
+
+// evalAt evaluates v as of occurrence index at: phis by the edge the path took,
+// helper parameters by their arguments, loads by the last store to the same
+// location earlier on the path (a never-stored field of an object allocated on
+// the path is zero), and +/- of constants arithmetically.
+func (p CPath) evalAt(occs []OccPos, at int, ctx *FCtx, v ssa.Value) PVal {
+	return p.evalAtD(occs, at, ctx, v, 0)
+}
+
+func (p CPath) evalAtD(occs []OccPos, at int, ctx *FCtx, v ssa.Value, depth int) PVal {
+	if at >= len(occs) {
+		at = len(occs) - 1
+	}
+	if at < 0 || depth > 12 {
+		return PVal{V: v, At: at}
+	}
+	// resolve step by step, moving the point of evaluation back to where each
+	// value was produced: a phi's operand is the operand as of the phi's own
+	// execution (the previous iteration's value, not a later recomputation)
+resolve:
+	for i := 0; i < 32; i++ {
+		switch x := v.(type) {
+		case *ssa.Phi:
+			pos := lastOcc(occs, at, x)
+			if pos < 0 {
+				break resolve
+			}
+			nv, nc, ok := p.Upto(occs[pos].Seg).stepIn(occs[pos].Ctx, v)
+			if !ok || nv == v {
+				break resolve
+			}
+			v, ctx, at = nv, nc, pos
+		case *ssa.UnOp:
+			break resolve
+		default:
+			nv, nc, ok := p.Upto(occs[at].Seg).stepIn(ctx, v)
+			if !ok || nv == v {
+				break resolve
+			}
+			v, ctx = nv, nc
+		}
+	}
+	if k, ok := constInt(v); ok {
+		return PVal{IsK: true, K: k}
+	}
+	switch x := v.(type) {
+	case *ssa.Convert:
+		if pos := lastOcc(occs, at, x); pos >= 0 {
+			return p.evalAtD(occs, pos, occs[pos].Ctx, x.X, depth+1)
+		}
+	case *ssa.ChangeType:
+		if pos := lastOcc(occs, at, x); pos >= 0 {
+			return p.evalAtD(occs, pos, occs[pos].Ctx, x.X, depth+1)
+		}
+	case *ssa.BinOp:
+		if x.Op == token.ADD || x.Op == token.SUB {
+			if pos := lastOcc(occs, at, x); pos >= 0 {
+				a := p.evalAtD(occs, pos, occs[pos].Ctx, x.X, depth+1)
+				b := p.evalAtD(occs, pos, occs[pos].Ctx, x.Y, depth+1)
+				if a.IsK && b.IsK {
+					if x.Op == token.ADD {
+						return PVal{IsK: true, K: a.K + b.K}
+					}
+					return PVal{IsK: true, K: a.K - b.K}
+				}
+			}
+		}
+	case *ssa.UnOp:
+		if x.Op != token.MUL {
+			break
+		}
+		pos := lastOcc(occs, at, x)
+		if pos < 0 {
+			break
+		}
+		want := p.Upto(occs[pos].Seg).APIn(occs[pos].Ctx, x.X)
+		if want.Root == nil {
+			break
+		}
+		sv, si, ok := p.storedBeforeRaw(occs, pos, want)
+		if ok {
+			return p.evalAtD(occs, si, occs[si].Ctx, sv, depth+1)
+		}
+		// never stored on this path: zero when the object was allocated on the path
+		if al, isAl := want.Root.(*ssa.Alloc); isAl && len(want.Sel) > 0 && lastOcc(occs, pos, al) >= 0 {
+			if b, isB := x.Type().Underlying().(*types.Basic); isB && b.Info()&types.IsInteger != 0 {
+				return PVal{IsK: true, K: 0}
+			}
+		}
+		return PVal{V: v, At: pos}
+	}
+	return PVal{V: v, At: at}
+}
+
+// storedBeforeRaw: the unresolved value of the last store, before occurrence at,
+// to the location want denotes (its occurrence index is returned so that the
+// value can be evaluated as of the store).
+func (p CPath) storedBeforeRaw(occs []OccPos, at int, want AP) (ssa.Value, int, bool) {
+	ws := want.SelString()
+	for i := at - 1; i >= 0; i-- {
+		st, ok := occs[i].In.(*ssa.Store)
+		if !ok {
+			continue
+		}
+		a := p.Upto(occs[i].Seg).APIn(occs[i].Ctx, st.Addr)
+		if a.Root != want.Root {
+			continue
+		}
+		as := a.SelString()
+		if as == ws {
+			return st.Val, i, true
+		}
+		// a store to an enclosing or enclosed part of the location: not tracked
+		if strings.HasPrefix(ws, as) || strings.HasPrefix(as, ws) {
+			return nil, -1, false
+		}
+	}
+	return nil, -1, false
+}
+
+// fieldAt: the value the field sel of the object root holds as of occurrence at.
+func (p CPath) fieldAt(occs []OccPos, at int, root ssa.Value, sel string) PVal {
+	want := AP{Root: root, Sel: strings.Split(sel, ".")}
+	sv, si, ok := p.storedBeforeRaw(occs, at, want)
+	if ok {
+		return p.evalAt(occs, si, occs[si].Ctx, sv)
+	}
+	if al, isAl := root.(*ssa.Alloc); isAl && lastOcc(occs, at, al) >= 0 {
+		return PVal{IsK: true, K: 0}
+	}
+	return PVal{V: root, At: -1}
+}
+
+// RelationPos is a Relation with the position of its branch on the path.
+type RelationPos struct {
+	Relation
+	At  int // occurrence index of the If
+	Ctx *FCtx
+}
+
+// relationsPos is relations with each condition resolved as of its own branch
+// (so that a test inside a loop is read with the values of that iteration).
+func (p CPath) relationsPos(occs []OccPos) []RelationPos {
+	// occurrence index of the last instruction of every segment
+	end := make([]int, len(p.Segs))
+	n := 0
+	for k, s := range p.Segs {
+		n += len(s.Instrs())
+		end[k] = n - 1
+	}
+	var out []RelationPos
+	for _, tk := range p.Ifs() {
+		v := tk.If.Cond
+		holds := tk.Arm
+		pk := p.Upto(tk.Pos)
+		ctx := p.Segs[tk.Pos].Ctx
+		for i := 0; i < 16; i++ {
+			if u, ok := v.(*ssa.UnOp); ok && u.Op == token.NOT {
+				holds = !holds
+				v = u.X
+				continue
+			}
+			nv, nc, ok := pk.stepIn(ctx, v)
+			if !ok || nv == v {
+				break
+			}
+			v, ctx = nv, nc
+		}
+		bo, ok := v.(*ssa.BinOp)
+		if !ok {
+			continue
+		}
+		op := bo.Op
+		if !holds {
+			op = negateOp(op)
+		}
+		if op == token.ILLEGAL {
+			continue
+		}
+		at := lastOcc(occs, end[tk.Pos], bo)
+		c2 := ctx
+		if at < 0 {
+			at = end[tk.Pos]
+		} else {
+			c2 = occs[at].Ctx
+		}
+		out = append(out, RelationPos{Relation{Op: op, X: bo.X, Y: bo.Y, If: tk.If}, at, c2})
+	}
+	return out
+}
+
+// dependsOnField: v, as of occurrence at, is read from field sel of root or is
+// the very value that was last stored there (the loop variable a request field
+// is copied from).
+func (p CPath) dependsOnField(occs []OccPos, at int, ctx *FCtx, v ssa.Value, root ssa.Value, sel string) bool {
+	want := AP{Root: root, Sel: strings.Split(sel, ".")}
+	sv, si, stored := p.storedBeforeRaw(occs, at, want)
+	var storedRes ssa.Value
+	if stored {
+		storedRes = stripConv(p.Upto(occs[si].Seg).ResolveIn(occs[si].Ctx, sv))
+	}
+	cur := v
+	for i := 0; i < 8; i++ {
+		cur = stripConv(cur)
+		if stored && (cur == stripConv(sv) || cur == storedRes) {
+			return true
+		}
+		if ld, ok := cur.(*ssa.UnOp); ok && ld.Op == token.MUL {
+			pos := lastOcc(occs, at, ld)
+			if pos >= 0 {
+				a := p.Upto(occs[pos].Seg).APIn(occs[pos].Ctx, ld.X)
+				if a.Root == root && a.SelString() == sel {
+					return true
+				}
+			}
+		}
+		nv, nc, ok := p.Upto(occs[at].Seg).stepIn(ctx, cur)
+		if !ok || nv == cur {
+			return false
+		}
+		cur, ctx = nv, nc
+	}
+	return false
 }
